@@ -16,6 +16,7 @@ import (
 type localFail struct{ why string }
 
 type localMode struct {
+	parent  *localMode
 	prefix  []bool
 	pos     int
 	decs    []bool
@@ -24,7 +25,7 @@ type localMode struct {
 	pending [][]bool
 }
 
-const maxLocalPaths = 96
+const maxLocalPaths = 32
 
 func hasSym(args []value) bool {
 	for _, a := range args {
@@ -144,16 +145,21 @@ func (i *interpreter) summarize(caller *frame, callpos token.Pos, fn *ssa.Functi
 		val  value
 	}
 	var leaves []leaf
-	lm := &localMode{}
+	lm := &localMode{parent: ex.local}
 	ex.local = lm
 	savedSteps := i.steps
 	savedJournal := len(i.journal)
 	defer func() {
-		ex.local = nil
+		ex.local = lm.parent
 		if p := recover(); p != nil {
 			if _, isFail := p.(localFail); isFail {
+				if lm.parent != nil {
+					// abort the enclosing local explorations too: nested retries would multiply
+					panic(p)
+				}
 				res, ok = nil, false
 				i.steps = savedSteps
+				i.noSummary[fn] = true
 				return
 			}
 			if _, isTP := p.(targetPanic); isTP {
@@ -247,8 +253,10 @@ func (ex *explorer) localBranch(cond *smt.Term) bool {
 	if v, ok := ex.decided[cond]; ok {
 		return v
 	}
-	if v, ok := lm.decided[cond]; ok {
-		return v
+	for l := lm; l != nil; l = l.parent {
+		if v, ok := l.decided[cond]; ok {
+			return v
+		}
 	}
 	var b bool
 	if lm.pos < len(lm.prefix) {
@@ -295,12 +303,12 @@ func (fr *frame) tableTerm(elems []value, k types.BasicKind, idx *smt.Term) (*sm
 			vals[j] = b
 		}
 	}
-	if w == 0 {
-		// boolean table: no affine structure; fall back
-		return nil, false
-	}
+	isBool := w == 0
 	mask := ^uint64(0)
-	if w < 64 {
+	if isBool {
+		mask = 1
+	}
+	if !isBool && w < 64 {
 		mask = (uint64(1) << w) - 1
 	}
 	type seg struct {
@@ -317,7 +325,7 @@ func (fr *frame) tableTerm(elems []value, k types.BasicKind, idx *smt.Term) (*sm
 			case vals[lo+1]&mask == vals[lo]&mask:
 				slope = 0
 				hi = lo + 1
-			case vals[lo+1]&mask == (vals[lo]+1)&mask:
+			case !isBool && vals[lo+1]&mask == (vals[lo]+1)&mask:
 				slope = 1
 				hi = lo + 1
 			}
@@ -328,10 +336,13 @@ func (fr *frame) tableTerm(elems []value, k types.BasicKind, idx *smt.Term) (*sm
 		segs = append(segs, seg{lo, hi, slope, vals[lo]})
 		lo = hi + 1
 	}
-	if len(segs) > 64 && len(segs) > n/2 {
+	if len(segs) > 24 {
 		return nil, false
 	}
 	f := func(s seg) *smt.Term {
+		if isBool {
+			return c.Bool(s.base&1 == 1)
+		}
 		if s.slope == 0 {
 			return c.BV(s.base, w)
 		}
